@@ -791,3 +791,31 @@ def _concretize_find_media(inputs):
 
 
 R.contracts[OAS + "_find_media_type_definition"].concretize = _concretize_find_media
+
+
+# ------------------------------------------------------------------------------------------------- to_json_schema on RESPONSE schemas: only the `nullable: true` MARKER widens what is accepted
+# The function is applied to every mapping of the schema tree - also to a `properties` MAP. A property that is merely NAMED `nullable` (its value: a sub-schema) is not the marker.
+CV4 = "schemathesis.specs.openapi.converter:"
+if CV4 + "update_pattern_in_schema" not in R.contracts:
+    R.contract(CV4 + "update_pattern_in_schema", args={"schema": Opq("Any")}, returns=NoneT, trusted=True, note="C01 contracts (differential stand-in)")
+if CV4 + "rewrite_properties" not in R.contracts:
+    R.contract(CV4 + "rewrite_properties", args={"schema": Opq("Any"), "predicate": Opq("Any")}, returns=NoneT, trusted=True, note="C01 contracts (readOnly / writeOnly rewriting)")
+if "schemathesis.core.transforms:deepclone" not in R.contracts:
+    R.contract("schemathesis.core.transforms:deepclone", args={"value": Opq("Any")}, returns=lambda it, env: it.B._deepcopy(env["value"], {}), trusted=True, note="deep copy")
+R.contract(
+    CV4 + "to_json_schema",
+    variant="response-schema",
+    prop="C04",
+    args={"schema": DictOf(optional={"nullable": OneOf(Bool, Const({"type": "string"}), Const({"type": "integer", "minimum": 1})), "type": Choice("string", "integer"),
+                                     "name": Const({"type": "string"})}),
+          "nullable_name": Const("nullable"), "copy": Bool, "is_response_schema": Const(True), "update_quantifiers": Const(False)},
+    raises=[],
+    ensures={
+        # a response is validated against what is declared: the declaration only ever gains the `null` alternative, and only for the marker `nullable: true`
+        "only_the_true_marker_adds_the_null_alternative": "iff(old(schema.get('nullable')) is True, 'anyOf' in result)",
+        "with_the_marker_the_rest_of_the_declaration_is_kept": "implies(old(schema.get('nullable')) is True, result['anyOf'][1] == {'type': 'null'} and "
+                                                               "result['anyOf'][0] == {k: v for k, v in old(dict(schema)).items() if k != 'nullable'})",
+        "without_the_marker_the_declaration_is_unchanged": "implies(old(schema.get('nullable')) is not True, result == old(dict(schema)))",
+    },
+    bounded_note="mappings over the keys nullable / type / name",
+)
